@@ -185,6 +185,8 @@ def py_type_name(st, v):
         return 'tuple'
     if isinstance(v, PyRef):
         return v.kind
+    if isinstance(v, TypeObj):
+        return 'type'
     if isinstance(v, SV):
         if isinstance(v.ty, Opt):
             return ('opt',)
@@ -204,6 +206,12 @@ class TypeObj:
 
     def __init__(self, *names, call=None):
         self.names, self.call = names, call
+
+    def vf_getattr(self, interp, st, name):
+        if name in ('__name__', '__qualname__'):
+            yield st, self.names[0] if self.names else sym.fresh(STR, 'type_name')
+            return
+        raise Unsupported(f'attribute {name} of a type object')
 
 
 def _type_call(name):
@@ -527,6 +535,28 @@ def _setattr(interp, st, args, kwargs):
 
 
 BUILTINS['setattr'] = Model('setattr', _setattr)
+
+
+def _repr(interp, st, args, kwargs):
+    (v,) = args
+    v = resolve(st, v)
+    yield st, (repr(v) if isinstance(v, (str, bytes, int, bool, type(None))) else sym.fresh(STR, 'repr'))
+
+
+BUILTINS['repr'] = Model('repr', _repr)
+
+
+def _tuple_ctor(interp, st, args, kwargs):
+    if not args:
+        yield st, ()
+        return
+    items = interp.concrete_items(st, resolve(st, args[0]))
+    if items is None:
+        raise Unsupported('tuple() of a symbolic iterable')
+    yield st, tuple(items)
+
+
+BUILTINS['tuple'] = Model('tuple', _tuple_ctor)
 BUILTINS['type'] = Model('type', lambda i, s, a, k: iter([(s, TypeObj(py_type_name(s, a[0]) or '?'))]))
 
 
@@ -649,6 +679,10 @@ def str_method(interp, st, recv, name, args, kwargs):
                 arr, _ = elems_of(interp, st, a0)
                 f = interp.uf(f'join_{a0.ty.cls.name}', k, _ArrTy(a0.ty.cls.elem), k)
                 yield st, SV(k, f(z, arr))
+                return
+            if isinstance(a0, (MapVal, __import__('vf.interp', fromlist=['Unknown']).Unknown)) or (isinstance(a0, PyRef) and a0.kind in ('set', 'list')):
+                # lazily mapped / unmodelled iterable: some string (messages only; nothing is known about it)
+                yield st, sym.fresh(k, 'joined')
                 return
             raise Unsupported('join over symbolic iterable')
         parts = []
